@@ -221,6 +221,14 @@ theorem decoded_ne_nil (q : Str) : decoded q ≠ [] := by
   rw [safeQslIter_eq, unquoteQsl_eq]
   simpa using splitOn_ne_nil q '&'
 
+/-- the decoded items of `"&".join(items)` (items without `&`): each item split at its first
+`=` and unescaped -/
+theorem decoded_join (R : List Str) (hne : R ≠ []) (h : ∀ r ∈ R, '&' ∉ r) :
+    decoded (join ['&'] R) = R.map (fun r => unqItem (cutFirst '=' r)) := by
+  unfold decoded
+  rw [safeQslIter_eq, splitOn_join '&' R hne h, unquoteQsl_eq, List.map_map]
+  rfl
+
 theorem wf_decoded (q : Str) : ∀ kv ∈ decoded q, ItemWf kv :=
   wf_unquoteQsl _ (wf_safeQslIter q)
 
